@@ -43,6 +43,8 @@ def _labels(cfg, src):
         return [src.lab(f'lab_{j}') for j in range(n)]
     if kind in ('range', 'nd_int'):
         return list(range(1990, 1990 + n))
+    if kind == 'range_step':
+        return list(range(-6, -6 + 3 * n, 3))   # stepped, straddling zero (labels -6, -3, 0, 3, ...)
     if kind in ('list_str', 'nd_str'):
         return STRS[:n]
     if kind == 'list_mixed':
@@ -61,6 +63,8 @@ def _span(cfg, labels):
         return arr
     if kind == 'range':
         return range(1990, 1990 + cfg['n'])
+    if kind == 'range_step':
+        return range(-6, -6 + 3 * cfg['n'], 3)
     if kind == 'nd_int':
         return np.arange(1990, 1990 + cfg['n'])
     if kind == 'nd_str':
@@ -281,7 +285,7 @@ def explore10(cfg: dict) -> dict:
 def configs(tier: str):
     out = []
     ns = (1, 2, 3, 4) if tier == 'quick' else (1, 2, 3, 4, 5, 6, 7)
-    for span in ('list_sym', 'nd_obj_sym', 'range', 'nd_int'):
+    for span in ('list_sym', 'nd_obj_sym', 'range', 'nd_int', 'range_step'):
         for n in ns:
             distinct = span == 'nd_obj_sym'
             for op in ('get', 'set'):
@@ -297,9 +301,9 @@ def configs(tier: str):
                     out.append(cfg10(span=span, n=n, op='roundtrip', wpath=w, pos=p, distinct=distinct))
     # plain-int labels on range / int64-ndarray spans (a proxy label would bypass any `isinstance(label, int)` fast path):
     # every label from below the first to above the last
-    for span in ('range', 'nd_int'):
+    for span in ('range', 'nd_int', 'range_step'):
         for n in (1, 3) if tier == 'quick' else (1, 2, 3, 5, 7):
-            labs = list(range(1990 - n - 2, 1990 + n + 3))
+            labs = list(range(1990 - n - 2, 1990 + n + 3)) if span != 'range_step' else list(range(-9, 3 * n - 3))
             for a in labs:
                 out.append(cfg10(span=span, n=n, op='get', a=a))
                 out.append(cfg10(span=span, n=n, op='set', a=a))
